@@ -48,7 +48,7 @@
 (***************************************************************************)
 EXTENDS Integers, Sequences, FiniteSets, TLC, Json
 
-CONSTANTS LenCmt, LenCmt2, LenStr, LenPP, LenNest, LenAll,
+CONSTANTS LenCmt, LenCmt2, LenStr, LenPP, LenPPB, LenNest, LenAll,
                      \* generator: longest text per alphabet profile (0: skip the profile)
           RowsFile   \* validator: JSON file written by the harness
 
@@ -86,8 +86,14 @@ IsBlank(c) == c = SP \/ c = TAB
 (* mlc  a comment / raw string that contains a newline was closed on the    *)
 (*      current line                                                       *)
 (* kn   the known construct occurred (see KnownConstruct)                   *)
+(* cl   (directives) the current line is a continuation line and holds       *)
+(*      only blanks so far                                                  *)
+(* acb  the directive ended with a blank continuation line and only blank    *)
+(*      lines followed so far                                               *)
+(* kn2  the second known construct occurred (see KnownConstruct2)            *)
 
-S0 == [m |-> "Code", ls |-> "b", bs |-> FALSE, ml |-> FALSE, mlc |-> FALSE, kn |-> FALSE]
+S0 == [m |-> "Code", ls |-> "b", bs |-> FALSE, ml |-> FALSE, mlc |-> FALSE, kn |-> FALSE,
+       cl |-> FALSE, acb |-> FALSE, kn2 |-> FALSE]
 
 NewLine(s) == [s EXCEPT !.m = "Code", !.ls = "b", !.bs = FALSE, !.ml = FALSE, !.mlc = FALSE]
 
@@ -104,7 +110,7 @@ CodeStep(s, c) ==
       [] OTHER      -> [s EXCEPT !.m = "Code", !.ls = "o"]
 
 \* The end of a directive's physical line.
-PPNewLine(s, contMode) == IF s.bs THEN [s EXCEPT !.m = contMode, !.bs = FALSE] ELSE NewLine(s)
+PPNewLine(s, contMode) == IF s.bs THEN [s EXCEPT !.m = contMode, !.bs = FALSE, !.cl = TRUE] ELSE NewLine(s)
 
 PPStep(s, c) ==
     CASE c = SLASH  -> [s EXCEPT !.m = "PPSlash", !.bs = FALSE]
@@ -115,7 +121,7 @@ PPStep(s, c) ==
       [] IsBlank(c) -> [s EXCEPT !.m = "PP"]
       [] OTHER      -> [s EXCEPT !.m = "PP", !.bs = FALSE]
 
-Step(s, c) ==
+Step0(s, c) ==
     CASE s.m = "Code"  -> CodeStep(s, c)
       [] s.m = "Slash" ->
             IF c = SLASH THEN [s EXCEPT !.m = "LC"]
@@ -164,6 +170,20 @@ Step(s, c) ==
       [] s.m = "PPSQEsc" -> IF c = NL THEN [s EXCEPT !.m = "Dead"] ELSE [s EXCEPT !.m = "PPSQ"]
       [] OTHER -> [s EXCEPT !.m = "Dead"]
 
+PPModes == {"PP", "PPSlash", "PPLC", "PPBC", "PPBCStar", "PPDQ", "PPDQEsc", "PPSQ", "PPSQEsc"}
+
+\* The machine proper is Step0; Step also keeps the book-keeping for the second
+\* known construct (cl, acb, kn2), which has no influence on the modes.
+Step(s, c) ==
+    LET r == Step0(s, c) IN
+    IF s.m \in PPModes THEN
+        IF c = NL THEN (IF r.m = "Code" THEN [r EXCEPT !.acb = s.cl, !.cl = FALSE] ELSE r)
+        ELSE IF IsBlank(c) THEN r
+        ELSE [r EXCEPT !.cl = FALSE]
+    ELSE IF s.m = "Code" /\ s.acb /\ c # NL /\ ~IsBlank(c) THEN
+        [r EXCEPT !.acb = FALSE, !.kn2 = s.kn2 \/ c # HASH]
+    ELSE r
+
 ClosedModes == {"Code", "Slash", "LC", "PP", "PPSlash", "PPLC"}
 
 RECURSIVE LexFrom(_, _, _)
@@ -178,6 +198,13 @@ Closed(t) == (\A i \in 1..Len(t) : t[i] \in 0..255) /\ Lex(t).m \in ClosedModes
 \* slash-star comment or raw string that spans more than one line is closed,
 \* another slash-star comment or raw string is opened.
 KnownConstruct(t) == Lex(t).kn
+
+\* The construct of the second known finding (key
+\* dumbindent-directive-continuation-survives-blank-lines): a directive whose
+\* last line ends in a backslash is followed by one or more blank lines (which
+\* end the directive) and then by a line that does not start with '#'.
+\* FormatBytes still takes that line for a part of the directive.
+KnownConstruct2(t) == Lex(t).kn2
 
 \* Fewest further bytes that can close the text.
 Need(m) == CASE m \in ClosedModes -> 0
@@ -234,9 +261,9 @@ Class(m) == CASE m \in {"Code", "Slash"} -> "code"
 \* Alphabet profiles.  Each is small enough for exhaustive enumeration to the
 \* length the runner asks for and aims at one family of interactions; "all"
 \* is the full alphabet in every mode.
-ProfileNames == {"cmt", "cmt2", "str", "pp", "nest", "all"}
+ProfileNames == {"cmt", "cmt2", "str", "pp", "ppb", "nest", "all"}
 MaxLenOf(p) == CASE p = "cmt" -> LenCmt [] p = "cmt2" -> LenCmt2 [] p = "str" -> LenStr
-                 [] p = "pp" -> LenPP [] p = "nest" -> LenNest [] p = "all" -> LenAll
+                 [] p = "pp" -> LenPP [] p = "ppb" -> LenPPB [] p = "nest" -> LenNest [] p = "all" -> LenAll
 
 Alpha(Profile, cls) ==
     CASE Profile = "all" -> Sigma
@@ -270,6 +297,11 @@ Alpha(Profile, cls) ==
                [] cls = "ppstr" -> {DQUOTE, BSLASH, LETTER}
                [] cls = "ppesc" -> {DQUOTE, BSLASH}
                [] OTHER -> {})
+      [] Profile = "ppb" ->      \* directive continuations, blank lines, raw strings and comments after them
+            (CASE cls = "code" -> {HASH, BSLASH, NL, BTICK}
+               [] cls = "raw"  -> {BTICK, NL}
+               [] cls = "pp"   -> {BSLASH, NL, SP}
+               [] OTHER -> {})
       [] Profile = "nest" ->     \* braces, parentheses, hanging lines, blanks
             (CASE cls = "code" -> {LBRACE, RBRACE, LPAREN, RPAREN, EQ, BSLASH, NL, SP, TAB, LETTER}
                [] OTHER -> {})
@@ -302,7 +334,7 @@ Flatten(ls) == IF ls = <<>> THEN <<>> ELSE ls[1] \o <<NL>> \o Flatten(Tail(ls))
 \* Printed for every closed text; always TRUE.  e is the expectation that the
 \* harness compares every output with (after stripping the output's lines).
 Emit == (Len(text) > 0 /\ st.m \in ClosedModes) =>
-            PrintT(ToJson([t |-> text, k |-> st.kn, e |-> Flatten(StripLines(text))]))
+            PrintT(ToJson([t |-> text, k |-> st.kn, k2 |-> st.kn2, e |-> Flatten(StripLines(text))]))
 
 \* The generator's incremental state is the machine's state (checked by TLC
 \* in the same runs): Emit prints exactly the texts that satisfy Closed.
@@ -352,5 +384,5 @@ ValSpec == ValInit /\ [][ValNext]_vars
 Judge == st.m = "lvl2" =>
             LET r == Rows[row]
                 v == Verdict(r) IN
-            AllOk(v) \/ PrintT(ToJson([row |-> row, known |-> KnownConstruct(r.t), verdict |-> v]))
+            AllOk(v) \/ PrintT(ToJson([row |-> row, known |-> KnownConstruct(r.t), known2 |-> KnownConstruct2(r.t), verdict |-> v]))
 =============================================================================
